@@ -2,7 +2,7 @@ SPEC = {
     "id": "C30",
     "props_module": "NDB.Props.C30",
     "corr_modules": ["NDB.Corr.C30"],
-    "theorems": ["C30_refuted", "C30_bulk_reads_partial", "C30_txn_reads_partial"],
+    "theorems": ["C30_refuted", "C30_bulk_reads_partial", "C30_txn_reads_partial", "C30_spec_of_load", "C30_bulk_equiv_txn_partial"],
     "allowed_axioms": [],
     "harness_pkg": "hx_engine",
     "harness_bin": "engine",
@@ -22,7 +22,7 @@ SPEC = {
 ],
     "manifest": {
         "category": "proof",
-        "text": "General statement formalised (C30_full_statement: valid input outside K-C30-parallel-props => bulk_open and run(load_txns) answer every read alike; load_txns = one committed transaction per item, same internal ids and interner order). Proved for ALL inputs, the two engine-side halves: C30_bulk_reads_partial \u2014 recovery of a bulk-loaded database yields no runs, one segment with the input relationships and the input properties in the store; nodes() = all positions, both edge views = the input relationships as multisets, single-key property reads = first store entry; C30_txn_reads_partial \u2014 the transactional load lies in the C06 fragment, so (when its history is well-formed) all its reads are those of the spec graph of the load. NOT proved: the joining lemma (the spec graph of the load is the graph described by the input \u2014 a statement about Engine/Graph.v only) and the whole-map reads; the equivalence itself is therefore sampled: every generated node/relationship list is loaded by BulkLoader and by one transaction per item, the name-canonical dumps compared, and both compared with the model inside Coq. Refuted for parallel relationships sharing a property key: C30_refuted (K-C30-parallel-props, same root as K-C05-dups). The no-relationship bulk load that panicked on incoming traversal is repaired (3cec098, corpus case 0).",
+        "text": "General statement formalised (C30_full_statement: valid input outside K-C30-parallel-props => bulk_open and run(load_txns) answer every read alike; load_txns = one committed transaction per item, same internal ids and interner order). Proved for ALL inputs, the two engine-side halves: C30_bulk_reads_partial \u2014 recovery of a bulk-loaded database yields no runs, one segment with the input relationships and the input properties in the store; nodes() = all positions, both edge views = the input relationships as multisets, single-key property reads = first store entry; C30_txn_reads_partial \u2014 the transactional load lies in the C06 fragment, so (when its history is well-formed) all its reads are those of the spec graph of the load. The joining lemma is proved (C30_spec_of_load: the spec graph of the load is the graph the input describes) and with it C30_bulk_equiv_txn_partial: for EVERY valid input whose load history is well-formed (executable hypothesis wf_hist (load_txns ns es); not derived from bulk_valid) the bulk-loaded and the transactionally loaded database agree on every read interface except the two whole-map reads: nodes(), both edge views as multisets, node_property, edge_property, labels, external ids, lookup; parallel relationships included. NOT proved: the two whole-map reads (node_properties / edge_properties; the only reads in which K-C30-parallel-props shows), hence not C30_full_statement itself, and wf_hist of the load from bulk_valid. Still sampled on top: every generated node/relationship list is loaded by BulkLoader and by one transaction per item, the name-canonical dumps compared, and both compared with the model inside Coq. Refuted for parallel relationships sharing a property key: C30_refuted (K-C30-parallel-props, same root as K-C05-dups). The no-relationship bulk load that panicked on incoming traversal is repaired (3cec098, corpus case 0).",
         "design_ref": "DESIGN.md §5 C30 (Storage: logical content)",
         "level_note": "Trusted: Coq kernel; hand-written model tied to the code by sampled correspondence (not by proof). The full statement is REFUTED on the pinned code (witness theorem, reproduced on the implementation, recorded as known findings); conditional theorems cover only the part stated in the text.",
         "technique": "Rocq: executable faithful model + spec graph, refutation witnesses by vm_compute, invariants by induction over histories; vm_compute model/implementation correspondence on generated histories; direct search against a reference graph / erased or stripped re-runs on the implementation",
